@@ -21,7 +21,7 @@ XAllowed(c, e) ==
   ELSE /\ e.ev = "csv" /\ (e.i > 0 => e.i <= Len(c.calls)) /\ Allowed(Cfg(c, e), e) /\ RpOK(Cfg(c, e), e)
        /\ (e.i > 0 => RetainedOK(c, e.i, e.retained))     \* what the caller kept from earlier calls into the same variable
 
-XWhy(c, e) == IF e.ev = "stress" THEN (IF e.other > 0 THEN "not-the-parsers-error" ELSE "stress-family-outcome")
+XWhy(c, e) == IF e.ev = "stress" THEN (IF e.hang THEN "call-did-not-return" ELSE IF e.other > 0 THEN "not-the-parsers-error" ELSE "stress-family-outcome")
               ELSE IF e.ev # "csv" THEN "unknown-event"
               ELSE IF ~Allowed(Cfg(c, e), e)
                    THEN (IF e.i > 1 /\ WhyNot(Cfg(c, e), e) \in {"records-differ", "unexpected-error"}
